@@ -60,6 +60,11 @@ class ExcTable:
     def __init__(self):
         self.bases = dict(BUILTIN_EXC)
         self.bases.update(_read_classes('tatsu/exceptions.py'))
+        # exception classes defined next to the code that raises them
+        for rel in ('tatsu/util/safeeval.py',):
+            for n, b in _read_classes(rel).items():
+                if any(x in self.bases or x.endswith('Error') for x in b):
+                    self.bases[n] = b
         # aliases (module-level NAME = Class)
         tree = ast.parse(open(os.path.join(REPO, 'tatsu/exceptions.py'), encoding='utf-8').read())
         self.alias = {}
